@@ -44,6 +44,16 @@ def modelStep (d : DState) (op : List String) (obs : List (List String)) : DStat
     let (s, _) := create 0
     ({ st := some s }, [])
   | ["gdestroy"], some s => let (s', evs) := globalDestroy s; ({ st := some s' }, renderEvs (evs.filter fun e => match e with | .ufree 0 _ => false | _ => true))
+  | ["gnested"], none =>
+    -- a fresh global cache; two unknown releases (one cached size, one uncached), the first of which
+    -- prints the warning through an output that itself releases an unknown buffer: `warnOnce` three times
+    let (s0, _) := create 0
+    let (s1, e1) := dealloc s0 1000000 10
+    let (s2, e2) := dealloc s1 1000001 300
+    let (s3, e3) := dealloc s2 1000002 10
+    let n := (e1 ++ e2 ++ e3).filter (fun e => match e with | .warn => true | _ => false) |>.length
+    let _ := s3
+    (d, [s!"warncount {n}"])
   | ["skip"], _ => (d, [])
   | _, _ => (d, ["bad-op"])
 
@@ -132,6 +142,12 @@ def specStep (sh : Shadow) (o : Proto.Op) : Except String Shadow := do
     return { sh with out := [] }
   | ["destroy"] =>
     return sh
+  | ["gnested"] =>
+    match o.obs.find? (fun l => l.head? == some "warncount") with
+    | some ["warncount", n] =>
+      if n != "1" then throw s!"the one-time warning was printed {n} times"
+      return sh
+    | _ => throw "no warning count observed (the nested release did not come back)"
   | ["gcreate"] => return sh
   | ["gdestroy"] =>
     -- the global cache is gone: everything it obtained must have been returned
